@@ -106,7 +106,6 @@ class ParCons(RankAggAlgorithm, PairwiseBasedAlgorithm):
                 if len(scc_i) > self._bound_for_exact:
                     cons_ext = self._auxiliary_alg.compute_consensus_rankings(
                         sub_problem, scoring_scheme, True).consensus_rankings[0]
-                    res.extend(cons_ext)
                     optimal = False
                 else:
                     try:
@@ -115,7 +114,10 @@ class ParCons(RankAggAlgorithm, PairwiseBasedAlgorithm):
                         exact_alg = ExactAlgorithmPulp()
                     cons_ext = exact_alg.compute_consensus_rankings(
                         sub_problem, scoring_scheme, True).consensus_rankings[0]
-                    res.extend(cons_ext)
+                # the sub-problem Dataset may have re-typed its elements (digit-only names become int when the
+                # component contains no other name): the elements of the input dataset are put back
+                elements_by_name = {str(element): element for element in set_current_elements}
+                res.extend({elements_by_name[str(element)] for element in bucket} for bucket in cons_ext)
 
         hash_information = {
             ConsensusFeature.ASSOCIATED_ALGORITHM: self.get_full_name(),
